@@ -42,11 +42,20 @@ def run_shard(spec, acc):
         brokerwl.shard_broker(spec, acc, PROP, 'benign+back')
     else:
         rng = random.Random(spec['rng'])
+        if spec['rng'] % 4 == 0:
+            # one shard in four: a portfolio that has been trading for years (more than 2**16 cash movements)
+            from qsmon import core
+            sp = {'start': '2019-01-02 15:00:00+00:00', 'cash': 1e6, 'n': 2 ** 16 + rng.randint(10, 900)}
+            core.guarded(PROP, acc, {'long_history': sp}, ladderwl.long_history_case, sp, acc)
         for _ in range(spec['cases']):
             ladderwl.random_ladder(rng, acc, PROP, rng.choice([20, 60, 150]), faults=False)
 
 
 def replay(case, acc):
+    if 'long_history' in case:
+        from qsmon import core
+        core.guarded(PROP, acc, case, ladderwl.long_history_case, case['long_history'], acc)
+        return
     brokerwl.run_case(case, acc, PROP)
 
 
